@@ -76,5 +76,46 @@ example : sample.WF := by
   · exact ⟨by decide, by decide⟩
   · exact ⟨by decide, by decide⟩
 
+/-! ## non-vacuity witnesses -/
+
+set_option maxRecDepth 4000 in
+/-- non-vacuity of `marshal_of_parse` (and of `parse_wellformed`, `parse_consumes_exactly`, which have the same
+    hypothesis): the parser accepts the literal text
+    `age-encryption.org/v1\n-> X ab ~\n\n-> !\nBwcH…(64 columns)\n\n--- AAA…(43)\n` followed by the payload `[1,2,3]`,
+    yielding the two-stanza header `sample` (an empty body; a 48-byte body with its empty last line) -/
+theorem marshal_of_parse_nonvacuous :
+    parse (Format.intro ++ [45, 62, 32, 88, 32, 97, 98, 32, 126, 10, 10] ++ [45, 62, 32, 33, 10] ++
+        (List.replicate 16 [66, 119, 99, 72]).flatten ++ [10, 10] ++
+        [45, 45, 45, 32] ++ List.replicate 43 65 ++ [10] ++ [1, 2, 3]) = .ok (sample, [1, 2, 3]) := by rfl
+
+/-- non-vacuity of `no_two_spellings`: the same literal text twice (the conclusion says there is no other choice) -/
+theorem no_two_spellings_nonvacuous :
+    ∃ b₁ b₂, parse b₁ = .ok (sample, [1, 2, 3]) ∧ parse b₂ = .ok (sample, [1, 2, 3]) :=
+  ⟨_, _, marshal_of_parse_nonvacuous, marshal_of_parse_nonvacuous⟩
+
+/-- non-vacuity of `parse_of_marshal`: the two-stanza header `sample` is well formed -/
+theorem parse_of_marshal_nonvacuous : sample.WF := by
+  refine ⟨?_, by decide⟩
+  intro s hs
+  simp only [sample, List.mem_cons, List.not_mem_nil, or_false] at hs
+  rcases hs with rfl | rfl
+  · exact ⟨by decide, by decide⟩
+  · exact ⟨by decide, by decide⟩
+
+/-- non-vacuity of `marshal_injective`: `sample` twice (the conclusion says there is no other choice) -/
+theorem marshal_injective_nonvacuous : sample.WF ∧ sample.WF ∧ marshal sample = marshal sample :=
+  ⟨parse_of_marshal_nonvacuous, parse_of_marshal_nonvacuous, rfl⟩
+
+/-- non-vacuity of `base64_canonical`: `AQIDBAU` decodes to the five bytes 1..5 -/
+theorem base64_canonical_nonvacuous : decodeString [65, 81, 73, 68, 66, 65, 85] = some [1, 2, 3, 4, 5] := by decide
+
+/-- the conclusions of `marshal_of_parse` and `parse_of_marshal` at those witnesses: the literal text is `marshal sample ++ [1,2,3]`,
+    and that parses back -/
+example : Format.intro ++ [45, 62, 32, 88, 32, 97, 98, 32, 126, 10, 10] ++ [45, 62, 32, 33, 10] ++
+      (List.replicate 16 [66, 119, 99, 72]).flatten ++ [10, 10] ++
+      [45, 45, 45, 32] ++ List.replicate 43 65 ++ [10] ++ [1, 2, 3] = marshal sample ++ [1, 2, 3] :=
+  marshal_of_parse _ _ _ marshal_of_parse_nonvacuous
+example : parse (marshal sample ++ [1, 2, 3]) = .ok (sample, [1, 2, 3]) := parse_of_marshal sample parse_of_marshal_nonvacuous _
+
 end Props.C07
 end AgeModel
